@@ -840,7 +840,7 @@ func (d *driver) exploreSeal(r *rng.R, ci int, c *corpus, dir string, ingest boo
 	res := make([]crashResult, len(specs))
 	againBudget := 0
 	if cycle == 0 {
-		againBudget = 2
+		againBudget = 3
 		if d.tier != "quick" {
 			againBudget = 5
 		}
@@ -1111,12 +1111,21 @@ func (d *driver) faults(r *rng.R, ci int, c *corpus) {
 			ks = append(ks, k)
 		}
 	}
+	type kn struct {
+		k int
+		n int64
+	}
+	var kns []kn
 	for _, k := range ks {
-		var n int64
-		if r.Bool() && k <= total {
+		kns = append(kns, kn{k, 0})
+		if k <= total {
+			// the failing write stores a part (possibly all) of its bytes before it reports the error
 			l := ws0.writes[min(k, len(ws0.writes))-1].Len
-			n = int64(r.Intn(int(l) + 1))
+			kns = append(kns, kn{k, int64(1 + r.Intn(int(l)))})
 		}
+	}
+	for _, x := range kns {
+		k, n := x.k, x.n
 		ws, err, pan := runOne(k, n)
 		fin := copyMap(in)
 		fin["failing_write_k"] = k
@@ -1268,7 +1277,9 @@ func main() {
 	nl, faultOnlyFrom := 4, 2000
 	if *tier == "quick" {
 		cfgs = []cfg{{r.Range(1, 3), false}, {r.Range(1, 3), true}, {r.Range(4, 30), false}, {r.Range(4, 30), true},
-			{r.Range(4, 60), r.Bool()}, {r.Range(60, 300), false}, {r.Range(60, 300), true}, {r.Range(4200, 4600), r.Bool()}}
+			{r.Range(4, 60), false}, {r.Range(4, 60), true}, {r.Range(60, 300), false}, {r.Range(60, 300), true},
+			{r.Range(4200, 4600), r.Bool()}}
+		nl = 5
 	} else {
 		d.maxQ = 8
 		nl = 10
